@@ -90,8 +90,9 @@ func run(ctx *fw.Ctx, rep *fw.Report) {
 		depth = 6
 	}
 	alpha := alphabet(ctx.Quick())
-	rep.Rule = fmt.Sprintf("explicit-state BFS over request histories: alphabet of %d concrete T-messages (attach incl. auth fid and attach names, Tauth, walk/walkgetattr with 7 name lists incl. clone, in-place and onto bound fids, lopen x3 modes, lcreate, read, write, readdir, fsync, clunk, remove, mkdir, symlink, mknod, link, unlinkat, rename, renameat, getattr, setattr, readlink, statfs, lock, xattrwalk, xattrcreate) over fids {0,1[,2]} and a 4-node tree; successor = replay of the shortest history on a fresh real server + 1 request; every reply compared with the reference model, rejected requests must not reach the backend; state key = model state + backend tree + server path-tree shape + live backend handles; depth target %d; distinct = distinct (request type, reply type, errno) classes observed", len(alpha), depth)
+	rep.Rule = fmt.Sprintf("explicit-state BFS over request histories: alphabet of %d concrete T-messages (attach incl. auth fid and attach names, Tauth, walk/walkgetattr with 7 name lists incl. clone, in-place and onto bound fids, lopen x3 modes, lcreate, read, write, readdir, fsync, clunk, remove, mkdir, symlink, mknod, link, unlinkat, rename, renameat, getattr, setattr, readlink, statfs, lock, xattrwalk, xattrcreate) over fids {0,1[,2]} and a 4-node tree; successor = replay of the shortest history on a fresh real server + 1 request; every reply compared with the reference model, rejected requests must not reach the backend; state key = model state + backend tree + server path-tree shape + live backend handles; depth target %d; plus (b) four PIPELINED two-request sequences (Tlopen whose backend Open fails, with Tread/Twrite/Tfsync/Treaddir on the same fid in flight behind it), all interleavings (DPOR): the second request must be refused and must not reach the backend; distinct = distinct (request type, reply type, errno) classes observed", len(alpha), depth)
 	rep.Assumptions = append(rep.Assumptions, "reference model harness/refmodel written from the property texts; don't-cares of DESIGN §4.0", "lock-step histories (one request in flight)", "names are valid path components (C09 owns invalid ones)")
 	cfg := &histex.Config{Name: "c04", Tree: tree, Alphabet: alpha, MaxDepth: depth}
 	histex.Explore(ctx, rep, cfg)
+	runPipelined(ctx, rep)
 }
